@@ -36,7 +36,7 @@ def shards(tier, seed):
 
 def floors(tier):
     return {"relabel:calls": 1000, "relabel_map:calls": 500, "iso_finder:calls": 300, "iso_finder:sort_emit": 50,
-            "iso_finder:label_map": 50, "iso_finder:n>=8": 20, "orbit:lc_orbit_finder": 100, "orbit:rgs": 10, "orbit:linear": 10,
+            "iso_finder:label_map": 50, "iso_finder:n>=8": 20, "orbit:lc_orbit_finder": 100, "orbit:rgs": 10, "orbit:linear": 10, "orbit:scripted_walk_distinctness_checked": 20, "orbit:returned_graph_edited_and_explored": 15, "orbit:linear_even_length_repeated": 2,
             "orbit:depth_first": 20, "orbit:graphs_checked": 1000, "lcomp_probe:steps": 1000, "relabel_map:permuted_insertion_order": 1000}
 
 
@@ -119,7 +119,17 @@ def replay(case, ctx):
     elif case["kind"] == "iso":
         check_iso(np.array(case["A"]), case["kw"], ctx)
     elif case["kind"] == "orbit":
-        check_orbit(np.array(case["A"]), case["method"], case["kw"], case.get("npseed", 0), ctx, LCProbe(ctx))
+        probe = LCProbe(ctx)
+        import graphiq.utils.relabel_module as rm
+        for meth, n_ in case.get("earlier_scripted_calls", []):      # the scripted walks this process had done before
+            try:
+                g0 = graphs.named_graphs(n_)["path"] if meth == "linear_partial_orbit" else repeater_graph(n_ // 2)
+                getattr(rm, meth)(gq.nx_from_adj(g0))
+            except Exception:
+                pass
+        if "parent" in case:
+            case = case["parent"]
+        check_orbit(np.array(case["A"]), case["method"], case["kw"], case.get("npseed", 0), ctx, probe)
 
 
 # ------------------------------------------------------------------------------------------------ relabel
@@ -298,16 +308,29 @@ def run_orbit(spec, ctx, rng):
         elif fam == 5:
             check_orbit(repeater_graph(int(rng.integers(2, 5))), "rgs_orbit_finder", {}, npseed, ctx, probe)
         elif fam == 6:
-            check_orbit(graphs.named_graphs(int(rng.integers(3, 10)))["path"], "linear_partial_orbit", {}, npseed, ctx, probe)
+            nl = int(rng.integers(3, 13))
+            check_orbit(graphs.named_graphs(nl)["path"], "linear_partial_orbit", {}, npseed, ctx, probe)
+            if nl % 2 == 0:
+                # the same (even) length again and the odd length below it, in the same process
+                ctx.count("orbit:linear_even_length_repeated")
+                check_orbit(graphs.named_graphs(nl)["path"], "linear_partial_orbit", {}, npseed, ctx, probe)
+                check_orbit(graphs.named_graphs(nl - 1)["path"], "linear_partial_orbit", {}, npseed, ctx, probe)
         else:
             n = int(rng.integers(3, 7))
             check_orbit(graphs.random_connected_graph(rng, n, 0.3), "depth_first_orbit", {}, npseed, ctx, probe)
 
 
-def check_orbit(A, method, kw, npseed, ctx, probe):
+SCRIPTED_HISTORY = []
+
+
+def check_orbit(A, method, kw, npseed, ctx, probe, replaying=False, gobj=None, depth=0, parent=None):
     import graphiq.utils.relabel_module as rm
     n = A.shape[0]
     case = {"kind": "orbit", "A": A.tolist(), "method": method, "kw": kw, "npseed": npseed}
+    if parent is not None:
+        case["parent"] = parent           # replay runs the parent exploration, which produces this graph object again
+    if method in ("linear_partial_orbit", "rgs_orbit_finder"):
+        case["earlier_scripted_calls"] = [list(x) for x in SCRIPTED_HISTORY[-12:]]
     ctx.case(("orbit", method, A.tobytes(), repr(sorted(kw.items())), npseed), True,
              {"A": A.tolist(), "method": method, "kwargs": kw} if ctx.evaluations % 25 == 0 else None)
     ctx.count({"lc_orbit_finder": "orbit:lc_orbit_finder", "rgs_orbit_finder": "orbit:rgs", "linear_partial_orbit": "orbit:linear",
@@ -315,7 +338,7 @@ def check_orbit(A, method, kw, npseed, ctx, probe):
     np.random.seed(npseed)
     probe.reset(A)
     try:
-        res = getattr(rm, method)(gq.nx_from_adj(A), **kw)
+        res = getattr(rm, method)(gq.nx_from_adj(A) if gobj is None else gobj, **kw)
     except Exception as e:
         ctx.violation("orbit_explorer_raises", case, {"exception": f"{type(e).__name__}: {e}"[:300]}, key=f"orbit_exc:{method}")
         return
@@ -335,6 +358,37 @@ def check_orbit(A, method, kw, npseed, ctx, probe):
             ctx.violation("returned_graph_not_in_lc_orbit", case, {"graph": a.tolist(), "decided_by": "exhaustive orbit" if full is not None else "observed complementation chain"},
                           key=f"orbit_member:{method}")
             break
+    if method in ("linear_partial_orbit", "rgs_orbit_finder") and arrs:
+        # documented: "a list of distinct graphs in the orbit", "the first graph in the list is the original graph state"
+        ctx.count("orbit:scripted_walk_distinctness_checked")
+        if not np.array_equal(arrs[0], A):
+            ctx.violation("orbit_input_not_first", case, {"first": arrs[0].tolist()}, key=f"orbit_first:{method}")
+        keys = [a.astype(int).tobytes() for a in arrs]
+        if len(set(keys)) != len(keys):
+            dup = [(i, j) for i in range(len(keys)) for j in range(i + 1, len(keys)) if keys[i] == keys[j]][:3]
+            ctx.violation("orbit_duplicates_although_distinct_promised", case, {"returned": len(arrs), "equal_positions": dup,
+                                                                               "earlier_scripted_calls_in_this_process": list(SCRIPTED_HISTORY[-12:])},
+                          key=f"orbit_dup:{method}")
+        SCRIPTED_HISTORY.append([method, int(n)])
+    if method == "lc_orbit_finder" and depth == 0 and len(res) >= 2 and n >= 4 and npseed % 3 == 0:
+        # a graph handed out by the explorer is edited by its new owner (an edge toggled) and explored itself: whatever the
+        # explorer left on the object must not matter
+        r2 = np.random.default_rng(npseed)
+        g2 = res[int(r2.integers(len(res)))]
+        if sorted(g2.nodes) == list(range(n)):
+            for _ in range(int(r2.integers(1, 3))):
+                u, v = (int(x) for x in r2.choice(n, 2, replace=False))
+                if g2.has_edge(u, v):
+                    g2.remove_edge(u, v)
+                else:
+                    g2.add_edge(u, v)
+            A2 = gq.adj_from_nx(g2, nodelist=range(n))
+            if graphs.components(A2)[0] == 1:
+                ctx.count("orbit:returned_graph_edited_and_explored")
+                kw2 = dict(kw, comp_depth=[None, 2, 3][int(r2.integers(3))] if n <= 6 else 2, rep_allowed=False)
+                if kw2["comp_depth"] is None and kw2.get("orbit_size_thresh") is None and n > 6:
+                    kw2["orbit_size_thresh"] = 30
+                check_orbit(A2, method, kw2, npseed + 1, ctx, probe, gobj=g2, depth=1, parent={k: v for k, v in case.items() if k != 'parent'})
     if method == "lc_orbit_finder":
         th = kw.get("orbit_size_thresh")
         if th is not None and len(arrs) > th:
